@@ -479,3 +479,22 @@ PROPS["C13"] = dict(
          "order; non-trivial = the lock changed hands between threads at least once and all digests matched",
     assumptions=["the Function object and the argument objects passed to a Thread outlive it (harness rule)"],
 )
+
+import c18 as _c18  # noqa: E402
+PROPS["C18"] = dict(
+    runner=_c18.runner, level="exploration",
+    technique="runtime differential testing: one seeded in-contract workload and the library rebuilt under every "
+              "combination of CELLO_NDEBUG / CELLO_CACHE=0 / CELLO_NGC and every optimisation level; transcripts "
+              "compared byte for byte; the default configuration also under ASan+UBSan",
+    level_text="Exploration (differential): the library and the workload (sequences, maps, strings, every kind of "
+               "format specification, show/look round trips, nested try/throw/catch, views, sorting, copying, "
+               "explicit deletion, files, run-time types) are rebuilt with identical flags in all 8 switch "
+               "combinations x {-O0,-O2} gcc (thorough: x {-O0..-O3} x {gcc, clang}) and run with 3 (thorough: 20) "
+               "workload seeds; every line of every transcript is compared with the baseline build.",
+    level_note="Only what the workload prints is compared; addresses and hashes of views are not printed. Operations "
+               "with open findings are not part of the workload.",
+    floors={"quick": {"configurations_built": 17, "transcript_lines_compared": 5000}},
+    rule="evaluation = one transcript line compared; case = (configuration, workload seed); distinct = that pair; "
+         "non-trivial = the transcript has at least 50 lines",
+    assumptions=["the workload takes no error path", "same compiler version and libc for all configurations"],
+)
